@@ -44,8 +44,10 @@ def codes(s):
 def run(ctx):
     rng = random.Random(ctx.seed)
     thorough = ctx.tier == "thorough"
-    cfg = "SPECIFICATION Spec\nCONSTANTS\n  Big = %s\nINVARIANT Inverts\nCHECK_DEADLOCK FALSE\n" % ("FALSE",)
-    ctx.model_check("HeaderLineCheck", cfg, label="HeaderLine: Parse inverts Format on the conformant pools", workers=16, timeout=3000)
+    cfg = ("SPECIFICATION Spec\nCONSTANTS\n  Big = FALSE\nINVARIANT Inverts\n%sCHECK_DEADLOCK FALSE\n"
+           % ("INVARIANT AlgoRefinesIntent\n" if thorough else ""))
+    ctx.model_check("HeaderLineCheck", cfg, label="HeaderLine: Parse inverts Format on the conformant pools"
+                    + ("; HeaderLineAlgo (regex cascade) refines it except on class D26" if thorough else ""), workers=16, timeout=3600)
     events = []
     seen = set()
 
@@ -122,6 +124,10 @@ def run(ctx):
         line = "".join(chr(c) for c in ev["line"])
         if clause.startswith("Harness."):
             bad_harness += 1
+            continue
+        if clause.startswith("Drift."):
+            # the algorithm layer (regex cascade as position arithmetic) disagrees with the implementation: model drift, no verdict
+            ctx.drift.append({"line": line, "section": ev["sec"], "observed": ["".join(chr(c) for c in x) for x in ev["obs"]]})
             continue
         obs = ["".join(chr(c) for c in x) for x in ev["obs"]]
         ctx.report(clause, "line %r in section %s parsed as %r (exception %r)" % (line, ev["sec"], obs, ev["exc"]),
